@@ -31,17 +31,21 @@ type nodeReq struct {
 	Op    string `json:"op"`    // send | state | insert
 	Entry string `json:"entry"` // execute | request | query-none | query-weak | query-strong
 	SQL   string `json:"sql"`
+	// NoState: answer without reading the settings back (reading opens a
+	// connection of the read-only pool, which by itself pins the journal mode)
+	NoState bool `json:"no_state,omitempty"`
 }
 
 // settings: journal_mode, wal_autocheckpoint, synchronous, query_only
 type connState [4]string
 
 type nodeState struct {
-	RW   connState `json:"rw"`
-	RO   connState `json:"ro"`
-	Hash string    `json:"hash"` // sha256 of db.sqlite (main file only)
-	WAL  int64     `json:"wal"`  // size of db.sqlite-wal
-	Err  string    `json:"err,omitempty"`
+	RW    connState `json:"rw"`
+	RO    connState `json:"ro"`
+	Hash  string    `json:"hash"` // sha256 of db.sqlite (main file only)
+	WAL   int64     `json:"wal"`  // size of db.sqlite-wal
+	Err   string    `json:"err,omitempty"`
+	ROErr string    `json:"ro_err,omitempty"`
 }
 
 type nodeResp struct {
@@ -131,13 +135,13 @@ func (n *node) state() nodeState {
 		Request: &proto.Request{Statements: stmts(readPragmas...)},
 		Level:   proto.ConsistencyLevel_NONE,
 	})
-	if err != nil {
-		ns.Err = "read ro: " + err.Error()
-		return ns
+	if err == nil {
+		ns.RO, err = rowsToState(qr)
 	}
-	if ns.RO, err = rowsToState(qr); err != nil {
-		ns.Err = "read ro: " + err.Error()
-		return ns
+	if err != nil {
+		// the read-write settings are still reported
+		ns.ROErr = err.Error()
+		ns.RO = connState{"unreadable", "unreadable", "unreadable", "unreadable"}
 	}
 	ns.Hash = sqlref.FileHash(filepath.Join(n.dir, "db.sqlite"))
 	if fi, err := os.Stat(filepath.Join(n.dir, "db.sqlite-wal")); err == nil {
@@ -256,7 +260,9 @@ func nodeWorker(args []string) {
 		case "state":
 			resp.Accepted = true
 		}
-		resp.State = n.state()
+		if !req.NoState {
+			resp.State = n.state()
+		}
 		return resp
 	})
 	st.Close(true)
